@@ -5,8 +5,6 @@ use std::{
     num::NonZeroUsize,
 };
 
-use flate2::bufread::MultiGzDecoder;
-
 use noodles_bgzf as bgzf;
 
 use crate::{input, Input};
@@ -67,26 +65,42 @@ impl Builder {
             None => CompressionMethod::detect(&mut reader)?,
         };
 
-        let format = match self.format {
-            Some(format) => format,
-            None => Format::detect(&mut reader, compression_method)?,
-        };
-
         let reader: super::DynReader = match compression_method {
             Some(CompressionMethod::Bgzf) => {
-                let bgzf_reader = bgzf::reader::Builder::default()
+                let mut bgzf_reader = bgzf::reader::Builder::default()
                     .set_worker_count(self.threads)
                     .build_from_reader(reader);
+
+                // The format is detected on the decompressed stream, so that it does not depend
+                // on how the data is split into blocks (empty blocks, blocks of a few bytes)
+                let mut head = Vec::new();
+                bgzf_reader
+                    .by_ref()
+                    .take(Format::DETECTION_LEN)
+                    .read_to_end(&mut head)?;
+                let mut bgzf_reader = io::Cursor::new(head).chain(bgzf_reader);
+
+                let format = match self.format {
+                    Some(format) => format,
+                    None => Format::detect(&mut bgzf_reader)?,
+                };
 
                 match format {
                     Format::Bcf => super::bcf::Reader::new(bgzf_reader).map(Box::new)?,
                     Format::Vcf => super::vcf::Reader::new(bgzf_reader).map(Box::new)?,
                 }
             }
-            None => match format {
-                Format::Bcf => super::bcf::Reader::new(reader).map(Box::new)?,
-                Format::Vcf => super::vcf::Reader::new(reader).map(Box::new)?,
-            },
+            None => {
+                let format = match self.format {
+                    Some(format) => format,
+                    None => Format::detect(&mut reader)?,
+                };
+
+                match format {
+                    Format::Bcf => super::bcf::Reader::new(reader).map(Box::new)?,
+                    Format::Vcf => super::vcf::Reader::new(reader).map(Box::new)?,
+                }
+            }
         };
 
         Ok(reader)
@@ -145,29 +159,20 @@ pub enum Format {
 }
 
 impl Format {
-    fn detect<R>(
-        reader: &mut R,
-        compression_method: Option<CompressionMethod>,
-    ) -> io::Result<Format>
+    const BCF_MAGIC_NUMBER: [u8; 3] = *b"BCF";
+
+    /// The number of (uncompressed) bytes that must be buffered for detection.
+    const DETECTION_LEN: u64 = Self::BCF_MAGIC_NUMBER.len() as u64;
+
+    /// Detects the format from the buffered start of the uncompressed data.
+    fn detect<R>(reader: &mut R) -> io::Result<Format>
     where
         R: io::BufRead,
     {
-        const BCF_MAGIC_NUMBER: [u8; 3] = *b"BCF";
-
         let src = reader.fill_buf()?;
 
-        if let Some(compression_method) = compression_method {
-            if compression_method == CompressionMethod::Bgzf {
-                let mut decoder = MultiGzDecoder::new(src);
-                let mut buf = [0; BCF_MAGIC_NUMBER.len()];
-                decoder.read_exact(&mut buf)?;
-
-                if buf == BCF_MAGIC_NUMBER {
-                    return Ok(Format::Bcf);
-                }
-            }
-        } else if let Some(buf) = src.get(..BCF_MAGIC_NUMBER.len()) {
-            if buf == BCF_MAGIC_NUMBER {
+        if let Some(buf) = src.get(..Self::BCF_MAGIC_NUMBER.len()) {
+            if buf == Self::BCF_MAGIC_NUMBER {
                 return Ok(Format::Bcf);
             }
         }
